@@ -592,6 +592,9 @@ def _applied(b, by_key, fop, _depth=0):
             return ('ctor', ffn)
         if ffn.get('local') and ffn.get('key') in by_key and ffn.get('def_kind') in ('Fn', 'AssocFn') and not ffn.get('trait'):
             return ('fn', fop)
+        # an inherent function of another crate passed as a value (`.map(u16::to_be_bytes)`): applied as an ordinary call
+        if not ffn.get('local') and ffn.get('def_kind') in ('Fn', 'AssocFn') and not ffn.get('trait'):
+            return ('extfn', fop)
         return None
     if fop.get('k') == 'const' and fop.get('closure') in by_key:
         return ('closure', fop['closure'], fop)
@@ -691,7 +694,9 @@ def expand_combinators(doc):
                             aadt, variant, vidx = cpath, cpath.rsplit('::', 1)[-1], 0
                         stmts.append(asg({'l': res_l, 'p': []}, _agg(aadt, variant, vidx, ['0'], [mv(arg_l)], ffn.get('generic_args'))))
                         return {'cleanup': False, 'stmts': stmts, 'term': {'k': 'goto', 'target': nxt, 'line': line}, 'syn': comb}, None
-                    if app[0] == 'fn':
+                    if app[0] == 'extfn':
+                        func, args, atys, ck = app[1], [mv(arg_l)], [arg_ty], None
+                    elif app[0] == 'fn':
                         func, args, atys, ck = app[1], [mv(arg_l)], [arg_ty], app[1]['fn']['key']
                     else:
                         ck = app[1]
@@ -1397,6 +1402,8 @@ def expand_closure_calls(doc):
                 continue
             fop, tup = t['args']
             app = _applied(b, by_key, fop)
+            if app is not None and app[0] == 'extfn':
+                app = None
             if app is None:
                 # a trait method item handed in as a value (`Self::derive_keypair`): follow plain moves to the constant
                 cur, hops = fop, 0
